@@ -1,4 +1,6 @@
-for p in C12 C04; do ./check $p --tier thorough --no-evidence 2>&1 | grep "violation sig\|^VIOLATION\|^SUMMARY\|^INCONCL\|^BROKEN" | cut -c1-500; done
-for s in 9 10 11 12 13 14; do for p in C03 C12 C04 C10; do ./check $p --seed $s --no-evidence 2>&1 | grep "violation sig\|^VIOLATION\|^SUMMARY\|^INCONCL\|^BROKEN" | cut -c1-500; done; done
-for s in 2 3 4; do for p in C01 C02 C05 C06 C07 C08 C09 C11 C13 C14 C15 C16 C17 C18 C19 C20; do ./check $p --seed $s --no-evidence 2>&1 | grep "violation sig\|^VIOLATION\|^SUMMARY\|^INCONCL\|^BROKEN" | cut -c1-400; done; done
-./check C03 --tier thorough --no-evidence 2>&1 | grep "violation sig\|^VIOLATION\|^SUMMARY\|^INCONCL\|^BROKEN" | cut -c1-500
+# usage: tools/sweep.sh [base]   -- multi-seed sweep of every check from fresh processes (seeds base+1 .. base+N)
+B=${1:-20}
+F='violation sig\|^VIOLATION\|^SUMMARY\|^INCONCL\|^BROKEN'
+for s in 1 2 3 4 5 6; do for p in C03 C12 C04 C10; do ./check $p --seed $((B+s)) --no-evidence 2>&1 | grep "$F" | cut -c1-500; done; done
+for s in 1 2 3; do for p in C01 C02 C05 C06 C07 C08 C09 C11 C13 C14 C15 C16 C17 C18 C19 C20; do ./check $p --seed $((B+s)) --no-evidence 2>&1 | grep "$F" | cut -c1-400; done; done
+for p in C03 C12 C04 C10; do ./check $p --tier thorough --seed $((B+1)) --no-evidence 2>&1 | grep "$F" | cut -c1-500; done
